@@ -1,7 +1,121 @@
-(* C18 — pipeline placeholder; replaced by the real statements *)
-From Gdsl.Model Require Import Base NodeOps.
-From Gdsl.Proofs Require Import NodeLemmas.
+(* C18 — Graph containers behave as key-to-node maps with faithful views.
+   Model: coq/model/Container.v: the container is an association list key -> allocation id (g_get is the lookup); its
+   hash-map iteration order is an external input `order` (any permutation of the bound keys, OrderOK). Node identity is
+   the allocation id, so "hands out the inserted nodes themselves" is: lookups return the id that was inserted. The same
+   definitions serve the four flavours (directed := true/false only selects what `for edge in node` iterates). *)
+From Gdsl.Model Require Import Spec Container.
+From Gdsl.Proofs Require Import ContainerProof.
 
-Theorem C18_placeholder_to_nil : forall (E : Type) v, to_ v (@nil (nat * E)) = [].
-Proof. exact to_nil. Qed.
-Print Assumptions C18_placeholder_to_nil.
+(* get/index/contains are lookups in the binding list *)
+Theorem c18_lookup :
+  forall (K V E : Type) (keqb : K -> K -> bool),
+       KeqbSpec keqb ->
+       forall (h : heap K V E) (g : graph K) (k : K) (u : nat),
+       GraphOK h g -> g_get keqb g k = Some u <-> In (k, u) g.
+Proof. exact g_get_in. Qed.
+Print Assumptions c18_lookup.
+
+(* contains(k) iff k is bound *)
+Theorem c18_contains :
+  forall (K : Type) (keqb : K -> K -> bool),
+       KeqbSpec keqb -> forall (g : graph K) (k : K), g_contains keqb g k = true <-> In k (map fst g).
+Proof. exact g_contains_spec. Qed.
+Print Assumptions c18_contains.
+
+(* insert: false and nothing changes when the key is present (the original stays); otherwise the node itself is bound to its key and every other binding is unchanged *)
+Theorem c18_insert :
+  forall (K V E : Type) (keqb : K -> K -> bool),
+       KeqbSpec keqb ->
+       forall (h : heap K V E) (g : graph K) (u : nat) (k : K),
+       GraphOK h g ->
+       u < size h ->
+       keyof h u = Some k ->
+       g_contains keqb g k = true /\ g_insert keqb h g u = (g, false) \/
+       g_contains keqb g k = false /\
+       g_insert keqb h g u = (g ++ [(k, u)], true) /\
+       GraphOK h (g ++ [(k, u)]) /\
+       g_get keqb (g ++ [(k, u)]) k = Some u /\
+       (forall k' : K, k' <> k -> g_get keqb (g ++ [(k, u)]) k' = g_get keqb g k').
+Proof. exact g_insert_spec. Qed.
+Print Assumptions c18_insert.
+
+(* remove returns the bound node (or None), unbinds exactly that key, len decreases accordingly *)
+Theorem c18_remove :
+  forall (K V E : Type) (keqb : K -> K -> bool),
+       KeqbSpec keqb ->
+       forall (h : heap K V E) (g : graph K) (k : K) (g' : graph K) (r : option nat),
+       GraphOK h g ->
+       g_remove keqb g k = (g', r) ->
+       r = g_get keqb g k /\
+       GraphOK h g' /\
+       g_get keqb g' k = None /\
+       (forall k' : K, k' <> k -> g_get keqb g' k' = g_get keqb g k') /\
+       g_len g' = g_len g - match r with
+                            | Some _ => 1
+                            | None => 0
+                            end.
+Proof. exact g_remove_spec. Qed.
+Print Assumptions c18_remove.
+
+(* len = number of bindings; is_empty iff none *)
+Theorem c18_len :
+  forall (K : Type) (g : graph K), g_len g = length (map fst g) /\ (g_is_empty g = true <-> g = []).
+Proof. exact g_len_spec. Qed.
+Print Assumptions c18_len.
+
+(* to_vec/iter hand out exactly the bound nodes, each once, in the container's order *)
+Theorem c18_iter_to_vec :
+  forall (K V E : Type) (keqb : K -> K -> bool),
+       KeqbSpec keqb ->
+       forall (h : heap K V E) (g : graph K) (order : list K),
+       GraphOK h g -> OrderOK g order -> Permutation (g_iter keqb g order) (members g).
+Proof. exact g_iter_perm. Qed.
+Print Assumptions c18_iter_to_vec.
+
+(* roots/leaves/orphans are exactly the members without incoming / without outgoing / without any edge *)
+Theorem c18_roots_leaves_orphans :
+  forall (K V E : Type) (keqb : K -> K -> bool),
+       KeqbSpec keqb ->
+       forall (h : heap K V E) (g : graph K) (order : list K),
+       GraphOK h g ->
+       OrderOK g order ->
+       Permutation (g_roots keqb h g order) (filter (is_root h) (members g)) /\
+       Permutation (g_leaves keqb h g order) (filter (is_leaf h) (members g)) /\
+       Permutation (g_orphans keqb h g order) (filter (is_orphan h) (members g)).
+Proof. exact g_views_perm. Qed.
+Print Assumptions c18_roots_leaves_orphans.
+
+(* to_dot: one node statement per member and one edge statement per edge obtained by iterating the members *)
+Theorem c18_to_dot :
+  forall (K V E : Type) (keqb : K -> K -> bool),
+       KeqbSpec keqb ->
+       forall (directed : bool) (h : heap K V E) (g : graph K) (order : list K),
+       GraphOK h g ->
+       OrderOK g order ->
+       Permutation (g_to_dot keqb directed h g order)
+         (flat_map
+            (fun u : nat =>
+             NodeStmt E u false
+             :: map (fun p : nat * E => EdgeStmt u (fst p) (snd p) false) (into_iter directed h u))
+            (members g)).
+Proof. exact g_to_dot_perm. Qed.
+Print Assumptions c18_to_dot.
+
+(* to_dot_with_attr: graph attributes, one node statement per member, one edge statement per iterated edge, with the attributes the callbacks supply *)
+Theorem c18_to_dot_with_attr :
+  forall (K V E : Type) (keqb : K -> K -> bool),
+       KeqbSpec keqb ->
+       forall (directed : bool) (h : heap K V E) (g : graph K) (order : list K) (ngattr : nat)
+         (nattr : nat -> bool) (eattr : nat -> nat -> E -> bool),
+       GraphOK h g ->
+       OrderOK g order ->
+       Permutation (g_to_dot_attr keqb directed h g order ngattr nattr eattr)
+         (map (GraphAttr E) (iota 0 ngattr) ++
+          map (fun u : nat => NodeStmt E u (nattr u)) (members g) ++
+          flat_map
+            (fun u : nat =>
+             map (fun p : nat * E => EdgeStmt u (fst p) (snd p) (eattr u (fst p) (snd p)))
+               (into_iter directed h u)) (members g)).
+Proof. exact g_to_dot_attr_perm. Qed.
+Print Assumptions c18_to_dot_with_attr.
+
